@@ -39,6 +39,24 @@ fn words_input(n: usize) -> Vec<u8> {
 
 pub fn run_prop(ctx: &Ctx, sink: &mut Sink) {
     let mut rng = Rng::new(ctx.seed).fork(19);
+    // (thorough tier only, see C04; the quick tier leaves the 128 KiB boundary to C06)
+    for big in if ctx.thorough { vec![131_072usize] } else { vec![] } {
+        for first in [true, false] {
+            let mut input = if first { vec![] } else { b"a b\n".to_vec() };
+            input.extend(std::iter::repeat(b'y').take(big));
+            input.extend_from_slice(b"\nc\n");
+            let c = XCase { opts: vec!["n2".to_string()], cmd: vec![b"cmd".to_vec()], input, script: vec!["e0".into(), "e1".into()], want_sys: 0 };
+            let (req, imp) = run_inproc(ctx, &c);
+            sink.push(Case { req, imp, tags: vec!["per-argument-limit", "nt"] });
+        }
+    }
+    // … and with -s, an over-long argument after arguments that fit
+    for (opts, input) in [(vec!["s40".to_string()], b"a b xxxxxxxxxxxxxxxxxxxxxxxxxxxxxxxxxxxxxxxxxxxxxxxxxxxxxxxxxxxx c d\n".to_vec()),
+                          (vec!["s40".to_string(), "n1".to_string()], b"a xxxxxxxxxxxxxxxxxxxxxxxxxxxxxxxxxxxxxxxxxxxxxxxxxxxxxxxxxxxx c\n".to_vec())] {
+        let c = XCase { opts, cmd: vec![b"cmd".to_vec()], input, script: vec![], want_sys: 0 };
+        let (req, imp) = run_inproc(ctx, &c);
+        sink.push(Case { req, imp, tags: vec!["too-long-later", "nt"] });
+    }
     let maxlen = if ctx.thorough { 6 } else { 5 };
     // every outcome sequence up to maxlen, one argument per command
     for len in 0..=maxlen {
